@@ -47,6 +47,13 @@ def combos(tier):
         # every row displayed: the display timer is read and reset all the time, the deadline must not notice
         out.append((spec, {"control": "DistanceRatio", "penalty": "DualNorm", "newton": "Simplified", "display_interval": 0.0}, None))
         out.append((spec, {"control": "Exact", "penalty": "ObjectiveFilter", "newton": "Simplified", "display_interval": 2e-6}, None))
+    # a 30-variable problem with the iterative linear solvers: nothing below the loop may depend on the limits
+    from pgfmc.model import specs as S
+    big = S.banded_qp(30, "mixed", 0)
+    out.append((big, {"control": "DistanceRatio", "penalty": "DualNorm", "newton": "Simplified", "linear": "GMRES", "step_solver": "Standard"}, None))
+    out.append((big, {"control": "DistanceRatio", "penalty": "DualNorm", "newton": "Simplified", "linear": "MINRES", "step_solver": "Symmetric"}, None))
+    if tier != "quick":
+        out.append((big, {"control": "Exact", "penalty": "DualNorm", "newton": "Full", "linear": "GMRES", "step_solver": "Asymmetric"}, None))
     return out
 
 
